@@ -185,3 +185,184 @@ def check_copy_family(rep, scr, tier, seed):
                       'make -C /verif/coq Properties_%s.vo (coqc, full .vo) + harness/check.py %s' % (pid, pid))
 
 REGISTRY = {p: check_copy_family for p in ('C01', 'C02', 'C03', 'C04', 'C05', 'C06', 'C07', 'C08')}
+
+# ------------------------------------------------------------------ C13: handler registration histories
+def gen_histories(seed, tier):
+    import random, itertools
+    rng = random.Random(seed)
+    hs = []
+    kinds = 'sm'; args = 'n123'
+    def ops_for(threads):
+        o = []
+        for k in kinds:
+            for t in threads:
+                o.append('V%s%d' % (k, t))
+                for a in args:
+                    o.append('S%s%d%s' % (k, t, a)); o.append('T%s%d%s' % (k, t, a))
+        return o
+    # exhaustive: every history of length <= 3 on the main thread, one kind (the other is symmetric), + probe violations
+    base = [o for o in ops_for([0]) if o[1] == 's']
+    for n in (1, 2, 3):
+        for combo in itertools.product(base, repeat=n):
+            hs.append(list(combo) + ['Vs0', 'Vm0'])
+    # random multi-thread histories; threads are created by different parents
+    shapes = [['P01', 'P02'], ['P01', 'P12'], ['P01', 'P12', 'P13'], ['P01', 'P02', 'P23']]
+    nrand = 1500 if tier == 'quick' else 12000
+    for i in range(nrand):
+        shape = rng.choice(shapes); alive = [0]; pending = list(shape); h = []
+        L = rng.randrange(4, 14 if tier == 'quick' else 40)
+        while len(h) < L:
+            if pending and rng.random() < 0.25 and int(pending[0][1]) in alive:
+                p = pending.pop(0); h.append(p); alive.append(int(p[2])); continue
+            h.append(rng.choice(ops_for(alive)))
+        for t in alive: h += ['Vs%d' % t, 'Vm%d' % t]
+        hs.append(h)
+    return hs
+
+def spec_py(h):
+    """independent reading of the property text: per-thread override of a global, per kind"""
+    glob = {'s': None, 'm': None}; thr = {}
+    out = []
+    def show(v): return 'N' if v is None else ('D' if v == 'n' else 'U' + v)
+    for o in h:
+        if o[0] == 'S':
+            out.append(show(glob[o[1]])); glob[o[1]] = o[3]
+        elif o[0] == 'T':
+            out.append(show(thr.get((o[1], o[2])))); thr[(o[1], o[2])] = o[3]
+        elif o[0] == 'V':
+            v = thr.get((o[1], o[2]))
+            if v is None: v = glob[o[1]]
+            out.append('D' if v in (None, 'n') else 'U' + v)
+        else:
+            for k in 'sm': thr.pop((k, o[2]), None)
+            out.append('-')
+    return out
+
+def check_C13(rep, scr, tier, seed):
+    import subprocess
+    impl = vlib.build_impl(scr, 'O1')
+    c = vlib.consts(scr, impl); vlib.write_gen_consts(c)
+    vlib.build_model()
+    rc, o, e = vlib.sh(['gcc', '-O1', '-w', '-I' + impl + '/inc', '-I' + vlib.REPO, vlib.HARN + '/hist_driver.c', impl + '/libimpl.a',
+                        '-o', impl + '/hist_driver', '-lpthread', '-Wl,--wrap=ignore_handler_s'])
+    if rc != 0: raise RuntimeError('hist_driver build failed: ' + e[-1500:])
+    pr = proofs(rep, scr, 'C13')
+    hs = gen_histories(seed, tier)
+    hf = scr.dir + '/hist.txt'
+    with open(hf, 'w') as f:
+        for i, h in enumerate(hs): f.write('h%d %s\n' % (i, ' '.join(h)))
+    def run(cmd):
+        with open(hf) as f:
+            p = subprocess.run(cmd, stdin=f, capture_output=True, text=True, timeout=1800)
+        return {l.split()[0]: l.split()[1:] for l in p.stdout.split('\n') if l.strip()}
+    oi = run([impl + '/hist_driver']); om = run([vlib.VERIF + '/build/model/hist_model'])
+    for i, h in enumerate(hs):
+        hid = 'h%d' % i; a = oi.get(hid); b = om.get(hid); s = spec_py(h)
+        rep.evals += 1; rep.count('len%d' % min(len(h), 20))
+        rep.nontrivial.add(tuple(h))
+        if len(rep.samples) < 5 and i % 701 == 3: rep.samples.append({'history': ' '.join(h), 'impl': a, 'model': b})
+        if a != s:
+            j = next((k for k in range(min(len(a or []), len(s))) if a[k] != s[k]), -1)
+            rep.violation('history %s: operation %d (%s) answered %s, the dispatch rule gives %s' % (hid, j, h[j] if 0 <= j < len(h) else '?', a[j] if a and 0 <= j < len(a) else a, s[j] if 0 <= j < len(s) else '?'),
+                          {'key': ('hist', h[j][:2] if 0 <= j < len(h) else '?'), 'property': 'C13', 'history': h, 'impl': a, 'model': b, 'spec': s})
+        elif a != b:
+            rep.mismatches.append((vlib.Case(hid, 'history', [], [], {'history': h}), vlib.Outcome('%s ret=%s' % (hid, '_'.join(a))), vlib.Outcome('%s ret=%s' % (hid, '_'.join(b or []))), 'O1'))
+    report_proofs(rep, pr, 'C13')
+    report_mismatches(rep, 'T1 (histories)')
+    rep.trusted = TRUSTED_COMMON + ['harness/hist_driver.c: operations serialised by semaphores on real pthreads, one fresh process per history; -Wl,--wrap=ignore_handler_s makes the default handler observable',
+                                    'interleavings: the model and the theorem cover every total order of operations; truly concurrent registration (data race on the global word) is not explored in the quick tier']
+    return rep.finish('every history of length <= 3 on one thread (exhaustive) + random multi-thread histories with thread creation by different parents; non-trivial = distinct history',
+                      'make -C /verif/coq Properties_C13.vo + harness/check.py C13')
+REGISTRY['C13'] = check_C13
+
+# ------------------------------------------------------------------ C12: reentrancy
+import struct
+def dbits(x): return 'F%016x' % struct.unpack('<Q', struct.pack('<d', x))[0]
+def wenc(s): return b''.join(ord(ch).to_bytes(4, 'little') for ch in s) + b'\0\0\0\0'
+UNK = BOS_UNKNOWN
+
+def gen_misc_cases(seed, tier):
+    """calls of the functions that are (or were) suspected of keeping scratch state: implementation side only"""
+    import random
+    rng = random.Random(seed); cs = []; n = [0]
+    def add(func, blocks, args, **meta):
+        n[0] += 1; meta['cls'] = 'misc'; meta['func'] = func
+        cs.append(vlib.Case('m%d' % n[0], func, blocks, args, meta))
+    for size in (1, 4, 8, 255, 256, 257, 300):
+        for nm in (0, 1, 2, 5, 17, 40):
+            data = bytes(rng.randrange(256) for _ in range(max(nm * size, 1)))
+            add('qsort_s', [('R', data)], [(0, 0), nm, size, UNK], nmemb=nm, size=size)
+    for dmax in (26, 27, 40, 119, 120, 121, 200):
+        for yr in (100, 0, 8099):
+            add('asctime_s', [('R', b'\x55' * dmax)], [(0, 0), dmax, UNK, yr, 0, 1, 0, 0, 0, 1, 0], dmax=dmax)
+        add('ctime_s', [('R', b'\x55' * dmax)], [(0, 0), dmax, UNK, 86400 * 365])
+    for fmt, arg in ((b'%Lf\0', 'G1.5'), (b'%Le\0', 'G12345.678'), (b'%a\0', dbits(1.5)), (b'%f\0', dbits(1e10)), (b'%f\0', dbits(3.25)),
+                     (b'%d %s\0', 5), (b'%La tail\0', 'G0.75'), (b'%g\0', dbits(1e20))):
+        for f in ('sprintf_s', 'snprintf_s', 'vsprintf_s', 'vsnprintf_s'):
+            blocks = [('R', b'\x55' * 64), ('R', fmt), ('R', b'str\0')]
+            add(f, blocks, [(0, 0), 64, UNK, (1, 0), 'V', arg, (2, 0)])
+    for f in ('swprintf_s', 'snwprintf_s', 'vswprintf_s', 'vsnwprintf_s'):
+        for dmax, text in ((4, 'abcdefgh'), (16, 'ab'), (3, 'xyz')):
+            blocks = [('R', b'\x55' * (4 * dmax)), ('R', wenc('%ls-%d')), ('R', wenc(text))]
+            add(f, blocks, [(0, 0), dmax, UNK, (1, 0), 'V', (2, 0), 7])
+    add('tmpfile_s', [], [])
+    for e in (0, 1, 400, 410, 34):
+        add('strerror_s', [('R', b'\x55' * 64)], [(0, 0), 64, e, UNK])
+    return cs
+
+def check_C12(rep, scr, tier, seed):
+    impl = vlib.build_impl(scr, 'O1')
+    c = vlib.consts(scr, impl); vlib.write_gen_consts(c)
+    inv = vlib.statics_inventory(impl)
+    known_static = []
+    for k in rep.known:
+        if k.get('static'):
+            f, s = k['static'].split(':'); known_static.append((f, s))
+    vlib.write_gen_statics(inv, known_static)
+    md = vlib.build_model()
+    pr = proofs(rep, scr, 'C12')
+    # python mirror of StaticsCheck.allowed_static, used only to name the offending objects
+    def allowed(e):
+        f, name, size, sec = e
+        return name in vlib.HANDLER_VARS or (sec in 'dD' and (name.startswith('UNWIF_') or name.startswith('UNW16IF_') or name == 'errmsgs_s'))
+    offending = [e for e in inv if not allowed(e)]
+    stf = scr.dir + '/statics.txt'
+    nr = vlib.statics_ranges(impl, inv, stf)
+    rep.extra['inventory'] = ['%s:%s (%d bytes, .%s)' % e for e in inv if not e[1].startswith('UNWIF_')]
+    rep.extra['snapshot_ranges'] = nr
+    cases = gen_copy('C01', seed, c, tier) + gen_copy('C07', seed, c, tier)[:2000] + gen_misc_cases(seed, tier)
+    cf = scr.dir + '/cases_c12.txt'
+    with open(cf, 'w') as f:
+        for x in cases: f.write(x.line() + '\n')
+    oi = vlib.run_impl(impl, cf, cases, statics=stf)
+    written = {}
+    for x in cases:
+        o = oi.get(x.id); rep.evals += 1; rep.count(x.func)
+        if o is None: continue
+        rep.nontrivial.add((x.func, o.ret, tuple(o.statics)))
+        if len(rep.samples) < 6 and rep.evals % 3001 == 7: rep.samples.append({'case': x.line()[:200], 'impl': o.raw[:200]})
+        for s in o.statics:
+            written.setdefault(s, x)
+    for sname, x in written.items():
+        kid = next((k['id'] for k in rep.known if k.get('static', '') == sname), None)
+        if kid: rep.known_hits[kid] = rep.known_hits.get(kid, 0) + 1
+        else:
+            rep.violation('%s writes the static object "%s": the library\'s static storage is not bit-identical before and after the call' % (x.func, sname),
+                          {'key': ('static', sname), 'property': 'C12', 'function': x.func, 'static': sname, 'case': x.to_json(), 'case_line': x.line(), 'impl_outcome': oi[x.id].raw})
+    for e in offending:
+        f, name, size, sec = e
+        if any(k == (f, name) for k in known_static):
+            kid = next(k['id'] for k in rep.known if k.get('static') == '%s:%s' % (f, name))
+            rep.known_hits.setdefault(kid, 1); continue
+        if '%s:%s' % (f, name) in written: continue
+        rep.violation('the library owns a writable static object %s:%s (%d bytes) that is neither handler registration nor a read-only table; no call was found that writes it' % (f, name, size),
+                      {'key': ('inventory', f, name), 'property': 'C12', 'no_failing_input': True,
+                       'broken': 'theorem C12_inventory_ok (Gen/Statics.v regenerated from nm)', 'object': '%s:%s' % (f, name)})
+    if not pr['ok'] and not rep.violations:
+        report_proofs(rep, pr, 'C12')
+    rep.trusted = TRUSTED_COMMON + ['translator statics: nm -S on the freshly compiled objects -> Gen/Statics.v; section letters as reported by nm',
+                                    'snapshot of the inventory objects inside the driver executable (static, non-PIE) before/after every call',
+                                    'hardware memory ordering and libc-internal statics are outside the model (sequentially consistent interleavings)']
+    return rep.finish('every modelled call of the C01/C07 generators plus sort/time/format/wide-format/tmpfile calls, each bracketed by a byte snapshot of all library statics; non-trivial = distinct (function, return, statics written)',
+                      'make -C /verif/coq Properties_C12.vo + harness/check.py C12')
+REGISTRY['C12'] = check_C12
